@@ -337,16 +337,27 @@ def gen(tier, rng):
                 out(f"c10.b.odd_gcd {l} {hx(a | 1)} {hx(b)} {rng.randrange(2)}")
 
     # ---------------- boxed operands of different precision (DESIGN §7 row 13 and its siblings)
-    for _ in range(12 if tier == 'quick' else 200):
+    for _ in range(60 if tier == 'quick' else 600):
         la, lb = rng.randrange(1, 9), rng.randrange(1, 9)
         if la == lb:
             lb += 1
-        a, b = rng.getrandbits(64 * la), rng.getrandbits(rng.randrange(1, 64 * lb + 1))
+        if rng.randrange(3) == 0:
+            a, b = gcd_pair(rng, 64 * min(la, lb))
+            if rng.randrange(2):       # high limbs of the wider operand matter
+                if la > lb: a |= (rng.getrandbits(64 * (la - lb)) << (64 * lb))
+                else: b |= (rng.getrandbits(64 * (lb - la)) << (64 * la))
+        else:
+            a, b = rng.getrandbits(64 * la), rng.getrandbits(rng.randrange(1, 64 * lb + 1))
+            if rng.randrange(4) == 0:  # common factor with a power of two
+                c = rng.getrandbits(32) | 1
+                t = rng.randrange(0, 40)
+                a, b = (a // c * c << t) % (1 << (64 * la)), (b // c * c << rng.randrange(0, 40)) % (1 << (64 * lb))
         vt = rng.randrange(2)
         out(f"c10.b.gcd_mixed {la} {hx(a)} {lb} {hx(b)} {vt}")
         out(f"c10.b.odd_gcd_mixed {la} {hx(a | 1)} {lb} {hx(b)} {vt}")
-        m = rng.getrandbits(64 * lb) | 1
-        out(f"c10.b.inv_odd_mod_mixed {la} {hx(rng.getrandbits(rng.randrange(1, 64 * la + 1)))} {lb} {hx(m)}")
+        if rng.randrange(5) == 0:
+            m = rng.getrandbits(64 * lb) | 1
+            out(f"c10.b.inv_odd_mod_mixed {la} {hx(rng.getrandbits(rng.randrange(1, 64 * la + 1)))} {lb} {hx(m)}")
 
     rng.shuffle(lines)
     return lines
